@@ -6,6 +6,7 @@
   index site inventories of the parser belong to C20 (totality), not to this property.
 -/
 import FianoModel.Cbfs.Model
+import FianoModel.Cbfs.Present
 import FianoModel.Gen.Cbfs
 
 namespace Fiano.Cbfs
@@ -71,5 +72,101 @@ theorem tie_overwrites : Gen.Cbfs.assigns_NewEmptyRecord.length = 2 ∧
     Gen.Cbfs.assigns_LegacyStageRecord_Read.length = 1 ∧
     Gen.Cbfs.assigns_NewFile.length = 1 ∧
     Gen.Cbfs.assigns_Image_WriteFile = [] := by decide
+
+/-! ## follow-up wp-c19b: the write-back (`Image.Update`, the `Write` methods) -/
+
+/-- what the `Write` method of the record type created for type `t` emits, in the vocabulary of the
+    extracted facts — this is the case analysis of `writeSeg` (Cbfs/Write.lean); `t = 2^32` stands for
+    every unregistered type (the fallback constructor of `NewImage`) -/
+def writeDescOf (t : Nat) : String :=
+  if isEmptyType t then "Write:File.FData"
+  else if t = typeLegacyStage then "WriteLE:StageHeader+Write:Data"
+  else if t = typeStage then "Write:Data"
+  else if t = typeSELF then "Write:Segs+Write:Data"
+  else "Write:File.FData"
+
+/-- … and before the repair: the master header record emits its (never decoded) `MasterHeader` -/
+def writeDescHeadOf (t : Nat) : String := if t = typeMaster then "Write:MasterHeader" else writeDescOf t
+
+/-- the arguments of `recString` in the `String` method of the record type created for type `t`, as
+    canonical selector paths from the record type (the translator resolves promoted fields and methods, so
+    `r.Size` on a record that embeds a second struct with a `Size` field shows up as that other field) — the
+    case analysis of `segString` (Cbfs/Present.lean): name or `(empty)`, record start, type name, the FILE
+    HEADER's size, the compression attribute or — empty space only — the constant `none`; a payload appends
+    its segment lines -/
+def stringDescOf (t : Nat) : String :=
+  if isEmptyType t then
+    "\"(empty)\",File.RecordStart,File.FileHeader.Type.String(),File.FileHeader.Size,\"none\""
+  else if t = typeSELF then
+    "File.Name,File.RecordStart,File.FileHeader.Type.String(),File.FileHeader.Size,File.Compression().String()+segs"
+  else "File.Name,File.RecordStart,File.FileHeader.Type.String(),File.FileHeader.Size,File.Compression().String()"
+
+/-- the reader registration table: which types have a reader of their own, each constructor builds the
+    record type of its name; every other type goes to `NewUnknownRecord` -/
+theorem tie_records_types : Gen.Cbfs.records.map (fun r => (r.1, r.2.1, r.2.2.1)) =
+    [(0, "NewEmptyRecord", "EmptyRecord"), (1, "NewBootBlock", "BootBlockRecord"), (2, "NewMaster", "MasterRecord"),
+     (0x10, "NewLegacyStageRecord", "LegacyStageRecord"), (0x11, "NewStageRecord", "StageRecord"),
+     (0x20, "NewPayloadRecord", "PayloadRecord"), (0x30, "NewOptionROM", "OptionROMRecord"),
+     (0x40, "NewBootSplash", "BootSplashRecord"), (0x50, "NewRaw", "RawRecord"), (0x53, "NewMicrocode", "MicrocodeRecord"),
+     (0x60, "NewFSP", "FSPRecord"), (0xaa, "NewCMOS", "CMOSRecord"), (0xab, "NewSPD", "SPDRecord"),
+     (0x1aa, "NewCMOSLayout", "CMOSLayoutRecord"), (0xffffffff, "NewEmptyRecord", "EmptyRecord"),
+     (2 ^ 32, "NewUnknownRecord", "UnknownRecord")] := by decide
+
+theorem tie_typeMaster : typeMaster = Gen.Cbfs.TypeMaster ∧ typeStage = Gen.Cbfs.TypeStage ∧
+    masterHdrLen = Gen.Cbfs.MasterHeaderLen ∧ masterHdrLen = Gen.Cbfs.size_MasterHeader := by decide
+
+/-- the `Write` methods and the shape of the `Update` loop are those of ONE of the two modelled
+    variants: as repaired by fixes/C19-update-in-place.diff (`writeSeg`, `update`: four `copy` calls —
+    header, name field, attributes, data — and the master record writes `FData`), or as before it
+    (`writeSegHead`, `updateHead`: one `copy`, the master record writes `MasterHeader`). The harness picks
+    the model variant by observing the real `Update` on a probe archive. -/
+theorem tie_update_variant :
+    (Gen.Cbfs.records.all (fun r => r.2.2.2.1 == writeDescOf r.1) = true ∧
+      Gen.Cbfs.builtins_Image_Update = [("copy", 2), ("copy", 2), ("copy", 2), ("copy", 2), ("len", 1)]) ∨
+    (Gen.Cbfs.records.all (fun r => r.2.2.2.1 == writeDescHeadOf r.1) = true ∧
+      Gen.Cbfs.builtins_Image_Update = [("copy", 2), ("len", 1), ("len", 1)]) := by decide
+
+/-- the header is written once per record through `Write` (big endian), the legacy stage header through
+    `WriteLE` -/
+theorem tie_write_calls : Gen.Cbfs.calls_Image_Update_Write.length = 1 ∧
+    Gen.Cbfs.calls_Write_binary_Write.length = 1 ∧ Gen.Cbfs.calls_WriteLE_binary_Write.length = 1 := by decide
+
+/-! ## follow-up wp-c19b: the presentation -/
+
+/-- what every `String` method passes to `recString` (code as repaired by
+    fixes/C19-list-compression-const.diff: only empty space prints the constant `none`) -/
+theorem tie_string_methods :
+    Gen.Cbfs.records.all (fun r => r.2.2.2.2 == stringDescOf r.1) = true := by decide
+
+/-- the format strings of the model's `Sprintf` calls are the literals in the source -/
+theorem tie_formats : Gen.Cbfs.strlits_recString = [recFormat] ∧
+    Gen.Cbfs.strlits_Image_String =
+      ["\n", headerFormat, "Comp", "FMAP REGIOName: COREBOOT\n", "Name", "Offset", "Size", "Type"] ∧
+    Gen.Cbfs.strlits_PayloadRecord_String = ["\n", segNameFormat] ∧
+    unknownTypeFormat ∈ Gen.Cbfs.strlits_FileType_String := by decide
+
+/-- the name tables are the switches of the `String` methods (cases sorted by their constant, which
+    are pairwise distinct); each method has exactly one more literal, its default -/
+theorem tie_name_tables : typeNames = Gen.Cbfs.switch_FileType_String ∧
+    (typeNames.map (·.1)).Nodup ∧ (segTypeNames.map (·.1)).Nodup ∧
+    compNames = Gen.Cbfs.switch_Compression_String ∧ segTypeNames = Gen.Cbfs.switch_SegmentType_String ∧
+    Gen.Cbfs.strlits_FileType_String.length = typeNames.length + 1 ∧
+    Gen.Cbfs.strlits_Compression_String = ["lz4", "lzma", "none", "unknown"] ∧
+    Gen.Cbfs.strlits_SegmentType_String = ["bss", "code", "data", "entry", "params", "unknown"] := by decide
+
+/-- JSON: the key order is the field order of the marshalled structs, and each key gets the value the
+    model gives it -/
+theorem tie_json_fields : keysImage = Gen.Cbfs.fields_mImage ∧ keysFile = Gen.Cbfs.fields_mFile ∧
+    keysPayload = Gen.Cbfs.fields_mPayloadRecord ∧ keysSegment = Gen.Cbfs.fields_mPayloadHeader := by decide
+
+theorem tie_json_values :
+    Gen.Cbfs.keyedlit_Image_MarshalJSON = ["Segments=Segs", "Offset=Area.Offset"] ∧
+    Gen.Cbfs.keyedlit_File_MarshalJSON = ["Name=Name", "Start=RecordStart", "Size=FileHeader.Size",
+      "Type=FileHeader.Type.String()", "Compression=Compression().String()"] ∧
+    Gen.Cbfs.keyedlit_PayloadRecord_MarshalJSON = ["Name=File.Name", "Start=File.RecordStart",
+      "Size=File.FileHeader.Size", "Type=File.FileHeader.Type.String()", "Segments=Segs",
+      "Compression=File.Compression().String()"] ∧
+    Gen.Cbfs.keyedlit_PayloadHeader_MarshalJSON = ["Type=Type.String()", "Compression=Compression.String()",
+      "Offset=Offset", "LoadAddress=LoadAddress", "Size=Size", "MemSize=MemSize"] := by decide
 
 end Fiano.Cbfs
